@@ -916,3 +916,60 @@ _C01_GUARDS = [
 def c01_k(ctx):
     from .base import check_guard_table
     check_guard_table(ctx, _C01_GUARDS)
+
+
+@obligation('C01-l', 'T7', 'with an adaptive distance the re-sort after a distance update applies '
+            'one permutation to every output buffer, the discrepancy included (shared with C12-f)',
+            floor=2,
+            necessary='rows of the returned outputs must come from the same draw and be in '
+                      'ascending order of the distance in force: a buffer that is skipped, or the '
+                      'permutation applied on the wrong side of the key test, misaligns them')
+def c01_l(ctx):
+    from . import C12
+    C12.c12_f(ctx)
+
+
+@obligation('C01-m', 'T4', 'threshold objective: the safety margin of the batch-count estimate is '
+            'added (the estimate grows while fewer than n_samples draws are acceptable)', floor=1,
+            necessary='n_samples / acceptance rate exceeds the simulations consumed only by '
+                      'n_sim / n_acceptable; a margin that is subtracted lets the estimate fall '
+                      'to the consumed batches while an acceptable draw is still missing: the '
+                      'run stops and returns an unfilled row')
+def c01_m(ctx):
+    from ..domains import polarity, POS
+    cls = ctx.cls(REJ)
+    n = 0
+    for m in cls.methods.values():
+        sts = [s for (s, t, k) in ctx.stores(m, "self.objective['n_batches']")
+               if isinstance(s, ast.Assign)]
+        if not sts or not any(isinstance(x, ast.Constant) and x.value == 'threshold'
+                              for x in ast.walk(m.node)):
+            continue
+        ex = ctx.ex(m)
+        for s in sts:
+            t = ex.term(s.value)
+            alts = t[1] if t[0] == 'phi' else (t,)
+            for a in alts:
+                inds = [x for x in subterms(a) if x[0] == 'call' and x[1] in (
+                    ('global', 'builtins.int'), ('global', 'int'), ('name', 'int')) and
+                    len(x[2]) == 1 and x[2][0][0] == 'cmp']
+                if not inds:
+                    continue
+                n += 1
+                ind = inds[0]
+                while True:       # rounding up is monotone
+                    mm = match(a, pattern('ceil(_x)')) or match(a, pattern('np.ceil(_x)')) or \
+                        match(a, pattern('int(_x)'))
+                    if mm is None or a is ind:
+                        break
+                    a = mm['x']
+                p = polarity(a, lambda x: x == ind, positive=(
+                    pattern_term('self.batch_size'),))
+                ctx.check(p == POS, m, 'margin enters the estimate with a positive sign',
+                          'n_batches = ceil((n_samples / rate + margin) / batch_size)',
+                          'the estimate depends on the "not enough acceptable draws yet" '
+                          'indicator with polarity {} (expected +): the margin does not push the '
+                          'estimate up'.format(p), fn=m, node=s)
+    if n == 0:
+        raise AnchorMissing('no batch-count estimate with a margin indicator in the rejection '
+                            'sampler')
